@@ -38,7 +38,7 @@ def plan(tier, seed):
     chunks += [{'kind': 'api-pairs', 'n': 3 if tier == 'quick' else 4, 'mod': 4, 'rem': r} for r in range(4)]
     chunks += [{'kind': 'cli', 'mod': 8, 'rem': r, 'n': 3 if tier == 'quick' else 4} for r in range(8)]
     return {
-        'chunks': chunks,
+        'chunks': chunks + [{'kind': 'clipipe-grammar'}],
         'rule': 'grammars extracted from every labelled hierarchy (labels {A,B}, <= 1 unary) over n <= %d tokens '
                 '(words incl. ambiguous, capitalised and non-ASCII ones), raw and binarized in %d modes, written as '
                 'PMCFG / RCG / LoPar x lex_in_grammar on/off x {utf-8, latin-1}; two-sentence treebanks (every ordered pair of all-A hierarchies, so that one production has a continuous and a discontinuous linearization); quick: five 5-token hierarchies with interleaved discontinuous children; decoded by independent decoders '
@@ -46,7 +46,8 @@ def plan(tier, seed):
                 'non-trivial = distinct (grammar, mode, format, option) cases with a count > 1 or fan-out > 1' % (nmax, len(MODES) - 1),
         'bound': 'trees n <= %d; %d modes; 3 formats' % (nmax, len(MODES)),
         'exhaustive': True,
-        'assumptions': ['labels and words contain no parentheses and no trailing digit; words differ from labels'],
+        'assumptions': ['driver differential (vt/clipipe.py): `treetools grammar` in 11 type / Markov / format / prefix combinations on a six-sentence treebank (same rule under contexts that differ at depth 1 and in fan-out only, one production with two linearizations, a five-child node with equal middle labels) must write, under the prefix given, what extraction + binarization + writer give through the library',
+                        'labels and words contain no parentheses and no trailing digit; words differ from labels'],
     }
 
 
@@ -417,6 +418,9 @@ def check_cli(mtjs, gramtype, markov, fmt, lig):
 
 
 def check_case(case):
+    if 'grammar_run' in case:
+        from .. import clipipe
+        return clipipe.replay_grammar(case)
     with quiet():
         if case.get('cli'):
             return check_cli(case['bank'], case['gramtype'], case['markov'], case['fmt'], case['lex_in_grammar'])
@@ -459,6 +463,11 @@ def extra_banks():
 
 
 def run_chunk(chunk):
+    if chunk.get('kind') == 'clipipe-grammar':
+        from .. import clipipe
+        res = Result()
+        clipipe.run_grammar(res)
+        return res
     res = Result()
     with quiet():
         if chunk['kind'] in ('api', 'api-pairs', 'api-extra'):
